@@ -3,6 +3,8 @@ mod error;
 mod receiver;
 mod reliable_sender;
 mod simple_sender;
+#[cfg(hotstuff_verif)]
+pub mod simnet;
 
 #[cfg(test)]
 #[path = "tests/common.rs"]
